@@ -177,6 +177,15 @@ func vfGenCsumSpec(idx int, seed uint64) vfSpec {
 		sp.Streams[i].Close = r.Intn(3) == 0
 	}
 	sp.X = map[string]int64{"corruptions": 30}
+	if sp.Roles == "cc" && r.Intn(2) == 0 {
+		// simultaneous open with the first INIT-ACKs lost: each side retransmits its INIT after it has already seen
+		// the peer's INIT (and with it the peer's zero-checksum advertisement)
+		for dir := 0; dir < 2; dir++ {
+			for nth := 1; nth <= 1+r.Intn(2); nth++ {
+				sp.Link.Script = append(sp.Link.Script, vfFault{Dir: dir, Kind: "INIT-ACK", Nth: nth, Act: "drop"})
+			}
+		}
+	}
 
 	return sp
 }
